@@ -1,26 +1,49 @@
-"""Fail-closed `ast` extractor for the trace store (C09): reads the shape of monkeytype/db/sqlite.py and
+"""Fail-closed extractor for the trace store (C09): reads the shape of monkeytype/db/sqlite.py and
 monkeytype/encoding.serialize_traces the Coq model Model/Store.v depends on and writes coq/Gen/StoreConstants.v.
 
+How it reads the source (robust against behaviour-preserving refactorings, strict about everything else):
+
+  * SQL text and parameter lists are obtained by EVALUATING the code, not by matching how the strings are put
+    together: `make_query` and `create_call_trace_table` (and the module-level helpers / constants they use) are run
+    by a small interpreter (`_Interp`) that understands only straight-line string/list building - assignment, `+=`,
+    str.format, f-strings, list append/extend, calls of same-module functions, `with conn:`, `for q in <tuple>`,
+    `conn.execute(sql)` - and `if <qualname> is [not] None`.  Anything else raises ExtractError.  make_query is run
+    with sentinel arguments for qualname None / not None (all paths, since the only tests allowed are those); the SQL
+    may mention the table sentinel only, never the module / qualname / limit sentinels; the parameter list is
+    compared with the sentinels.  The schema is obtained by running create_call_trace_table on an in-memory SQLite
+    connection (twice: it has to be idempotent) and reading PRAGMA table_info / sqlite_master.
+  * Control flow that the model depends on stays syntactic, on a NORMAL FORM of the function: a pre-pass turns
+    `x = [E for v in it if c]` / `return [E for ...]` into the equivalent loop and inlines calls of private
+    single-`return` module functions, then harness/ast_canon.canonical_module renames locals in binding order, drops
+    annotations, inlines straight-line helpers, orders independent assignments ...  The matchers compare the normal
+    form with the expected text exactly (SQL expressions are evaluated and replaced by a placeholder first).
+
 What is read (every item fails closed on a shape it does not recognise):
-  * CREATE TABLE column list and the INSERT's value tuple (column -> CallTraceRow attribute);
+  * table columns (name, declared type TEXT, no constraint / default / trigger / unique index) and the INSERT's value
+    tuple (column -> CallTraceRow attribute), the INSERT statement evaluated with self.table = a sentinel;
   * `add`: every trace is serialised *before* the single `executemany` that sits alone inside one
     `with self.conn:` block  ->  store_add_shape = "SerialiseThenOneTransaction";
   * `serialize_traces`: `for trace in traces: try: yield from_trace(trace) except Exception: <log>`
     ->  store_serialise_shape = "SkipOnException";
-  * make_query: module predicate, the qualname operator *and* the number of parameters appended for it,
+  * make_query: module predicate, the qualname operator *and* the number of parameters passed for it,
     GROUP BY / SELECT columns, LIMIT ? as the last parameter  (operator classification:
     `qualname LIKE ? || '%'` with 1 parameter -> "LikePrefix";
     `substr(qualname, 1, length(?)) == ?` (or `=`) with the same value passed 2 times -> "ExactPrefix");
-  * filter: rows are turned into CallTraceRow(*row) positionally, all rows fetched;
-  * list_modules: SELECT module ... GROUP BY module, python-side `if row[0]` filter -> drops falsy (empty/NULL).
+  * filter: make_query(self.table, module, qualname_prefix, limit) executed on self.conn, all rows fetched and turned
+    into CallTraceRow(*row) positionally;
+  * list_modules: SELECT module ... GROUP BY module on self.table, python-side `if row[0]` filter -> drops falsy.
 """
 import ast
+import copy
 import os
 import re
+import sqlite3
+import types
 
-from harness import common
+from harness import ast_canon, common
 
 ALL5 = ["module", "qualname", "arg_types", "return_type", "yield_type"]
+T_SENT, M_SENT, Q_SENT, L_SENT = "T_SENTINEL_tbl", "M_SENTINEL_mod", "Q_SENTINEL_qual", 918273
 
 
 class ExtractError(Exception):
@@ -33,16 +56,22 @@ def _parse(rel):
 
 
 def _func(tree, name):
+    for node in tree.body:
+        if isinstance(node, (ast.FunctionDef, ast.AsyncFunctionDef)) and node.name == name:
+            return node
     for node in ast.walk(tree):
         if isinstance(node, (ast.FunctionDef, ast.AsyncFunctionDef)) and node.name == name:
             return node
     raise ExtractError(f"function {name} not found")
 
 
-def _strs(node):
-    """string literals below `node`, in source order"""
-    ns = [n for n in ast.walk(node) if isinstance(n, ast.Constant) and isinstance(n.value, str)]
-    return [n.value for n in sorted(ns, key=lambda n: (n.lineno, n.col_offset))]
+def _method(tree, cls, name):
+    for node in tree.body:
+        if isinstance(node, ast.ClassDef) and node.name == cls:
+            ms = [s for s in node.body if isinstance(s, ast.FunctionDef) and s.name == name]
+            if len(ms) == 1:
+                return ms[0]
+    raise ExtractError(f"{cls}.{name} not found (or defined more than once)")
 
 
 def _norm(s):
@@ -61,51 +90,394 @@ def _is_self_conn(e):
     return isinstance(e, ast.Attribute) and e.attr == "conn" and isinstance(e.value, ast.Name) and e.value.id == "self"
 
 
+# ------------------------------------------------------------------------------------------------------------
+# evaluation: a tiny interpreter for straight-line string / list building code
+# ------------------------------------------------------------------------------------------------------------
+class _Return(Exception):
+    def __init__(self, value):
+        self.value = value
+
+
+class _Interp:
+    """Runs module-level functions of one module.  Only the constructs listed in the module docstring are understood;
+    everything else raises ExtractError, so a function that can be run here IS straight-line string/list building."""
+
+    def __init__(self, tree):
+        self.funcs = {}
+        counts = {}
+        for st in tree.body:
+            for t in (st.targets if isinstance(st, ast.Assign) else [st.target] if isinstance(st, ast.AnnAssign) else []):
+                if isinstance(t, ast.Name):
+                    counts[t.id] = counts.get(t.id, 0) + 1
+            if isinstance(st, (ast.FunctionDef, ast.ClassDef)):
+                counts[st.name] = counts.get(st.name, 0) + 1
+        for st in tree.body:
+            if isinstance(st, ast.FunctionDef) and counts[st.name] == 1 and not st.decorator_list:
+                self.funcs[st.name] = st
+        # module-level constants: names bound exactly once to an expression this interpreter can evaluate
+        self.consts = {}
+        for st in tree.body:
+            tgt, val = None, None
+            if isinstance(st, ast.Assign) and len(st.targets) == 1:
+                tgt, val = st.targets[0], st.value
+            elif isinstance(st, ast.AnnAssign) and st.value is not None:
+                tgt, val = st.target, st.value
+            if isinstance(tgt, ast.Name) and counts.get(tgt.id) == 1:
+                try:
+                    self.consts[tgt.id] = self.expr(val, {})
+                except ExtractError:
+                    pass
+        self.executed = []          # SQL handed to <connection>.execute, in order
+        self.none_tests = set()     # names tested against None
+        self.depth = 0
+
+    # -- expressions
+    def expr(self, e, env):
+        if isinstance(e, ast.Constant):
+            if isinstance(e.value, (str, int)) or e.value is None:
+                return e.value
+            raise ExtractError("constant of an unexpected type")
+        if isinstance(e, ast.Name) and isinstance(e.ctx, ast.Load):
+            if e.id in env:
+                return env[e.id]
+            if e.id in self.consts:
+                return self.consts[e.id]
+            raise ExtractError(f"cannot evaluate name {e.id}")
+        if isinstance(e, ast.Attribute) and isinstance(e.value, ast.Name) and e.value.id == "self" and "self" in env:
+            if not hasattr(env["self"], e.attr):
+                raise ExtractError(f"cannot evaluate self.{e.attr}")
+            return getattr(env["self"], e.attr)
+        if isinstance(e, ast.JoinedStr):
+            out = []
+            for part in e.values:
+                if isinstance(part, ast.Constant) and isinstance(part.value, str):
+                    out.append(part.value)
+                elif isinstance(part, ast.FormattedValue) and part.conversion == -1 and part.format_spec is None:
+                    v = self.expr(part.value, env)
+                    if not isinstance(v, str):
+                        raise ExtractError("f-string interpolates a non-string")
+                    out.append(v)
+                else:
+                    raise ExtractError("f-string with conversion / format spec")
+            return "".join(out)
+        if isinstance(e, ast.BinOp) and isinstance(e.op, ast.Add):
+            a, b = self.expr(e.left, env), self.expr(e.right, env)
+            if type(a) is type(b) and isinstance(a, (str, list, tuple)):
+                return a + b
+            raise ExtractError("`+` on something that is not two strings / lists")
+        if isinstance(e, (ast.Tuple, ast.List)) and isinstance(e.ctx, ast.Load):
+            vals = [self.expr(x, env) for x in e.elts]
+            return tuple(vals) if isinstance(e, ast.Tuple) else vals
+        if isinstance(e, ast.Call):
+            return self.call(e, env)
+        raise ExtractError("expression not understood: " + ast.unparse(e)[:80])
+
+    def call(self, e, env):
+        if any(isinstance(a, ast.Starred) for a in e.args) or any(k.arg is None for k in e.keywords):
+            raise ExtractError("call with * / **")
+        if isinstance(e.func, ast.Name) and e.func.id in self.funcs and e.func.id not in env:
+            if e.keywords:
+                raise ExtractError("keyword call of a helper")
+            return self.run(self.funcs[e.func.id], [self.expr(a, env) for a in e.args])
+        if isinstance(e.func, ast.Attribute):
+            recv = self.expr(e.func.value, env)
+            args = [self.expr(a, env) for a in e.args]
+            kw = {k.arg: self.expr(k.value, env) for k in e.keywords}
+            if isinstance(recv, str) and e.func.attr == "format":
+                if not all(isinstance(v, str) for v in list(args) + list(kw.values())):
+                    raise ExtractError("str.format with a non-string argument")
+                try:
+                    return recv.format(*args, **kw)
+                except (KeyError, IndexError, ValueError) as ex:
+                    raise ExtractError(f"str.format failed: {ex}")
+            if isinstance(recv, list) and e.func.attr == "append" and len(args) == 1 and not kw:
+                recv.append(args[0])
+                return None
+            if isinstance(recv, list) and e.func.attr == "extend" and len(args) == 1 and not kw \
+                    and isinstance(args[0], (list, tuple)):
+                recv.extend(args[0])
+                return None
+            if isinstance(recv, sqlite3.Connection) and e.func.attr == "execute" and len(args) == 1 and not kw \
+                    and isinstance(args[0], str):
+                self.executed.append(args[0])
+                try:
+                    recv.execute(args[0])
+                except sqlite3.Error as ex:
+                    raise ExtractError(f"schema statement fails in SQLite: {ex}")
+                return None
+        raise ExtractError("call not understood: " + ast.unparse(e)[:80])
+
+    # -- statements
+    def block(self, stmts, env, top):
+        for st in stmts:
+            if isinstance(st, ast.Pass) or (isinstance(st, ast.Expr) and isinstance(st.value, ast.Constant)):
+                continue
+            if isinstance(st, ast.Assign) and len(st.targets) == 1:
+                self.assign(st.targets[0], self.expr(st.value, env), env)
+            elif isinstance(st, ast.AnnAssign) and st.value is not None and isinstance(st.target, ast.Name):
+                env[st.target.id] = self.expr(st.value, env)
+            elif isinstance(st, ast.AugAssign) and isinstance(st.op, ast.Add) and isinstance(st.target, ast.Name) \
+                    and st.target.id in env:
+                a, b = env[st.target.id], self.expr(st.value, env)
+                if not (isinstance(a, str) and isinstance(b, str)):
+                    raise ExtractError("`+=` on something that is not two strings")
+                env[st.target.id] = a + b
+            elif isinstance(st, ast.Expr) and isinstance(st.value, ast.Call):
+                self.call(st.value, env)
+            elif isinstance(st, ast.Return):
+                raise _Return(None if st.value is None else self.expr(st.value, env))
+            elif isinstance(st, ast.If):
+                t = st.test
+                if not (top and isinstance(t, ast.Compare) and isinstance(t.left, ast.Name) and len(t.ops) == 1
+                        and isinstance(t.ops[0], (ast.Is, ast.IsNot)) and isinstance(t.comparators[0], ast.Constant)
+                        and t.comparators[0].value is None and t.left.id in env):
+                    raise ExtractError("conditional other than `<parameter> is [not] None` in SQL-building code")
+                self.none_tests.add(t.left.id)
+                is_none = env[t.left.id] is None
+                self.block(st.body if is_none == isinstance(t.ops[0], ast.Is) else st.orelse, env, top)
+            elif isinstance(st, ast.With) and len(st.items) == 1 and st.items[0].optional_vars is None \
+                    and isinstance(self.expr(st.items[0].context_expr, env), sqlite3.Connection):
+                with self.expr(st.items[0].context_expr, env):
+                    self.block(st.body, env, top)
+            elif isinstance(st, ast.For) and isinstance(st.target, ast.Name) and not st.orelse:
+                seq = self.expr(st.iter, env)
+                if not isinstance(seq, (list, tuple)):
+                    raise ExtractError("for loop over something that is not a literal sequence")
+                for v in seq:
+                    env[st.target.id] = v
+                    self.block(st.body, env, top)
+            else:
+                raise ExtractError("statement not understood: " + ast.unparse(st)[:80])
+
+    def assign(self, target, value, env):
+        if isinstance(target, ast.Name):
+            env[target.id] = value
+        elif isinstance(target, ast.Tuple) and all(isinstance(t, ast.Name) for t in target.elts) \
+                and isinstance(value, (tuple, list)) and len(value) == len(target.elts):
+            for t, v in zip(target.elts, value):
+                env[t.id] = v
+        else:
+            raise ExtractError("assignment target not understood")
+
+    def run(self, fn, args):
+        a = fn.args
+        if a.vararg or a.kwarg or a.kwonlyargs or a.posonlyargs or len(args) > len(a.args) \
+                or len(args) < len(a.args) - len(a.defaults):
+            raise ExtractError(f"{fn.name}: parameter list not understood")
+        self.depth += 1
+        if self.depth > 8:
+            raise ExtractError("helper calls nest too deep")
+        env = {p.arg: v for p, v in zip(a.args, args)}
+        for p, d in zip(a.args[len(args):], a.defaults[len(a.defaults) - (len(a.args) - len(args)):]):
+            env[p.arg] = self.expr(d, {})
+        try:
+            self.block(fn.body, env, self.depth == 1)
+            out = None
+        except _Return as r:
+            out = r.value
+        self.depth -= 1
+        return out
+
+
+# ------------------------------------------------------------------------------------------------------------
+# normal form for the syntactic part
+# ------------------------------------------------------------------------------------------------------------
+def _single_return_helpers(tree):
+    """private module-level functions whose body is one `return <expr>` over their parameters"""
+    out = {}
+    names = [s.name for s in tree.body if isinstance(s, (ast.FunctionDef, ast.ClassDef))]
+    for st in tree.body:
+        if isinstance(st, ast.FunctionDef) and st.name.startswith("_") and names.count(st.name) == 1 \
+                and not st.decorator_list:
+            body = _body(st)
+            a = st.args
+            if len(body) == 1 and isinstance(body[0], ast.Return) and body[0].value is not None and not (
+                    a.vararg or a.kwarg or a.kwonlyargs or a.posonlyargs or a.defaults):
+                params = [p.arg for p in a.args]
+                e = body[0].value
+                opaque = (ast.Lambda, ast.ListComp, ast.SetComp, ast.DictComp, ast.GeneratorExp, ast.Yield,
+                          ast.YieldFrom, ast.Await, ast.NamedExpr)
+                if not any(isinstance(n, opaque) for n in ast.walk(e)):
+                    out[st.name] = (params, e)
+    return out
+
+
+class _InlineHelpers(ast.NodeTransformer):
+    """f(a, b) -> body expression of f with its parameters replaced, when every argument is a plain name or
+    `self.<attr>` (loads without effect, so evaluating them where the parameter is used is the same)"""
+
+    def __init__(self, helpers, local_names):
+        self.helpers, self.local_names = helpers, local_names
+
+    def visit_Call(self, n):
+        self.generic_visit(n)
+        if isinstance(n.func, ast.Name) and n.func.id in self.helpers and n.func.id not in self.local_names \
+                and not n.keywords:
+            params, e = self.helpers[n.func.id]
+            ok = len(n.args) == len(params) and all(
+                isinstance(a, ast.Name) or (isinstance(a, ast.Attribute) and isinstance(a.value, ast.Name))
+                for a in n.args)
+            if ok:
+                m = dict(zip(params, n.args))
+
+                class Sub(ast.NodeTransformer):
+                    def visit_Name(self, x):
+                        return copy.deepcopy(m[x.id]) if x.id in m and isinstance(x.ctx, ast.Load) else x
+                return Sub().visit(copy.deepcopy(e))
+        return n
+
+
+def _comp_to_loop(fn):
+    """`x = [E for v in it if c]` / `return [E for v in it if c]` -> x = []; for v in it: if c: x.append(E).
+    Only when the comprehension variable does not occur anywhere else in the function (it would leak otherwise)."""
+    all_names = [n.id for n in ast.walk(fn) if isinstance(n, ast.Name)] + [a.arg for a in fn.args.args]
+    fresh = [0]
+
+    def usable(comp):
+        if not (isinstance(comp, ast.ListComp) and len(comp.generators) == 1 and not comp.generators[0].is_async
+                and isinstance(comp.generators[0].target, ast.Name)):
+            return False
+        v = comp.generators[0].target.id
+        inside = sum(1 for n in ast.walk(comp) if isinstance(n, ast.Name) and n.id == v)
+        return all_names.count(v) == inside and not any(
+            isinstance(n, (ast.ListComp, ast.SetComp, ast.DictComp, ast.GeneratorExp, ast.Lambda))
+            for n in ast.walk(comp) if n is not comp)
+
+    def loop(acc, comp):
+        g = comp.generators[0]
+        inner = [ast.Expr(ast.Call(ast.Attribute(ast.Name(acc, ast.Load()), "append", ast.Load()), [comp.elt], []))]
+        for c in reversed(g.ifs):
+            inner = [ast.If(c, inner, [])]
+        return [ast.Assign([ast.Name(acc, ast.Store())], ast.List([], ast.Load())),
+                ast.For(ast.Name(g.target.id, ast.Store()), g.iter, inner, [])]
+
+    def go(stmts):
+        out = []
+        for st in stmts:
+            for f in ("body", "orelse", "finalbody"):
+                if isinstance(getattr(st, f, None), list) and not isinstance(st, (ast.FunctionDef, ast.ClassDef)):
+                    setattr(st, f, go(getattr(st, f)))
+            tgt = None
+            if isinstance(st, ast.Assign) and len(st.targets) == 1 and isinstance(st.targets[0], ast.Name):
+                tgt = st.targets[0].id
+            elif isinstance(st, ast.AnnAssign) and isinstance(st.target, ast.Name) and st.value is not None:
+                tgt = st.target.id
+            if tgt and usable(st.value) and not any(
+                    isinstance(n, ast.Name) and n.id == tgt for n in ast.walk(st.value)):
+                out += loop(tgt, st.value)
+            elif isinstance(st, ast.Return) and st.value is not None and usable(st.value):
+                while f"_acc{fresh[0]}" in all_names:
+                    fresh[0] += 1
+                acc = f"_acc{fresh[0]}"
+                fresh[0] += 1
+                out += loop(acc, st.value) + [ast.Return(ast.Name(acc, ast.Load()))]
+            else:
+                out.append(st)
+        return out
+    fn.body = go(fn.body)
+
+
+def normal_form(tree):
+    """pre-pass (helper inlining at expression level, comprehension -> loop) + ast_canon's normal form"""
+    tree = copy.deepcopy(tree)
+    helpers = _single_return_helpers(tree)
+    for node in ast.walk(tree):
+        if isinstance(node, ast.FunctionDef) and node.name not in helpers:
+            local_names = {n.id for n in ast.walk(node) if isinstance(n, ast.Name) and isinstance(n.ctx, ast.Store)}
+            local_names |= {a.arg for a in node.args.args}
+            node.body = [_InlineHelpers(helpers, local_names).visit(s) for s in node.body]
+            _comp_to_loop(node)
+    ast.fix_missing_locations(tree)
+    return ast_canon.canonical_module(tree)
+
+
+def _canon_text(fn, sql_slot=None, env=None, interp=None):
+    """unparsed normal-form body; the argument of the call named by sql_slot (e.g. 'executemany', 'execute' with one
+    argument) is evaluated and replaced by the placeholder SQL -> (text, [evaluated sql])"""
+    fn = copy.deepcopy(fn)
+    sqls = []
+    if sql_slot:
+        for n in ast.walk(fn):
+            if isinstance(n, ast.Call) and isinstance(n.func, ast.Attribute) and n.func.attr == sql_slot[0] \
+                    and len(n.args) == sql_slot[1] and not n.keywords:
+                v = interp.expr(n.args[0], env)
+                if not isinstance(v, str):
+                    raise ExtractError("SQL argument does not evaluate to a string")
+                sqls.append(v)
+                n.args[0] = ast.Name("SQL", ast.Load())
+    return "\n".join(ast.unparse(s) for s in _body(fn)), sqls
+
+
+# ------------------------------------------------------------------------------------------------------------
+# the items
+# ------------------------------------------------------------------------------------------------------------
 def table_columns(tree):
-    fn = _func(tree, "create_call_trace_table")
-    sql = _norm(" ".join(_strs(fn)))
-    m = re.search(r"CREATE TABLE IF NOT EXISTS \{table\} \(([^)]*)\)", sql)
-    if not m:
-        raise ExtractError("CREATE TABLE statement not recognised")
+    """run create_call_trace_table on an in-memory database and read the schema back"""
+    it = _Interp(tree)
+    fn = it.funcs.get("create_call_trace_table")
+    if fn is None or [a.arg for a in fn.args.args] != ["conn", "table"]:
+        raise ExtractError("create_call_trace_table(conn, table) not found")
+    conn = sqlite3.connect(":memory:")
+    try:
+        for _ in range(2):                       # make_store runs it on every open: it has to be idempotent
+            it.depth = 0
+            it.run(fn, [conn, T_SENT])
+        if conn.in_transaction:
+            raise ExtractError("create_call_trace_table leaves a transaction open")
+        if not any(re.match(r"CREATE TABLE IF NOT EXISTS %s \(" % T_SENT, _norm(s)) for s in it.executed):
+            raise ExtractError("CREATE TABLE statement not recognised")
+        master = conn.execute("SELECT type, name, tbl_name, sql FROM sqlite_master").fetchall()
+        info = conn.execute(f"PRAGMA table_info({T_SENT})").fetchall()
+        idx = conn.execute(f"PRAGMA index_list({T_SENT})").fetchall()
+    finally:
+        conn.close()
+    tables = [m for m in master if m[0] == "table"]
+    if [m[1] for m in tables] != [T_SENT] or any(m[0] not in ("table", "index") or m[2] != T_SENT for m in master):
+        raise ExtractError("schema creates something other than one table and its indexes")
+    if any(i[2] for i in idx):
+        raise ExtractError("table has a UNIQUE index the model does not know")
+    if re.search(r"\b(UNIQUE|TRIGGER|PRIMARY|CHECK|REFERENCES|DEFAULT|COLLATE|GENERATED|NOT\s+NULL|WITHOUT|STRICT)\b",
+                 tables[0][3], flags=re.I):
+        raise ExtractError("table has constraints the model does not know")
     cols = []
-    for part in m.group(1).split(","):
-        ws = part.split()
-        if len(ws) != 2 or ws[1] != "TEXT":
-            raise ExtractError(f"column declaration not `<name> TEXT`: {part!r}")   # constraints would change semantics
-        cols.append(ws[0])
-    if re.search(r"\b(UNIQUE|TRIGGER|PRIMARY|CHECK)\b", sql, flags=re.I):
-        raise ExtractError("table has constraints/triggers the model does not know")
+    for _cid, name, typ, notnull, dflt, pk in info:
+        if typ != "TEXT" or notnull or dflt is not None or pk:
+            raise ExtractError(f"column declaration not `<name> TEXT`: {name} {typ}")   # constraints would change semantics
+        cols.append(name)
+    if not cols:
+        raise ExtractError("table has no columns")
     return cols
 
 
-def add_shape(tree):
-    """-> (shape name, [attribute inserted per column])"""
-    fn = _func(tree, "add")
+def add_shape(tree, nf):
+    """-> (shape name, [attribute inserted per column]); nf = normal form of the module"""
+    fn = _method(nf, "SQLiteStore", "add")
     body = _body(fn)
     if len(body) != 3:
         raise ExtractError("add: expected `values = []; for ...; with self.conn: ...`")
     init, loop, w = body
     if not (isinstance(init, ast.Assign) and isinstance(init.value, ast.List) and not init.value.elts
-            and isinstance(init.targets[0], ast.Name)):
+            and len(init.targets) == 1 and isinstance(init.targets[0], ast.Name)):
         raise ExtractError("add: first statement is not `values = []`")
     vname = init.targets[0].id
     if not (isinstance(loop, ast.For) and isinstance(loop.iter, ast.Call) and isinstance(loop.iter.func, ast.Name)
-            and loop.iter.func.id == "serialize_traces" and len(loop.iter.args) == 1
-            and isinstance(loop.iter.args[0], ast.Name) and loop.iter.args[0].id == fn.args.args[1].arg
+            and loop.iter.func.id == "serialize_traces" and len(loop.iter.args) == 1 and not loop.iter.keywords
+            and isinstance(loop.iter.args[0], ast.Name) and len(fn.args.args) == 2
+            and loop.iter.args[0].id == fn.args.args[1].arg
             and not loop.orelse and len(loop.body) == 1 and isinstance(loop.target, ast.Name)):
         raise ExtractError("add: second statement is not `for row in serialize_traces(traces): values.append(...)`")
     rname = loop.target.id
     app = loop.body[0]
     if not (isinstance(app, ast.Expr) and isinstance(app.value, ast.Call) and isinstance(app.value.func, ast.Attribute)
             and app.value.func.attr == "append" and isinstance(app.value.func.value, ast.Name)
-            and app.value.func.value.id == vname and len(app.value.args) == 1
+            and app.value.func.value.id == vname and len(app.value.args) == 1 and not app.value.keywords
             and isinstance(app.value.args[0], ast.Tuple)):
         raise ExtractError("add: loop body is not values.append((...))")
     attrs = []
     for e in app.value.args[0].elts:
         if isinstance(e, ast.Attribute) and isinstance(e.value, ast.Name) and e.value.id == rname:
             attrs.append(e.attr)
-        elif isinstance(e, ast.Call) and ast.unparse(e.func) == "datetime.datetime.now" and not e.args:
+        elif isinstance(e, ast.Call) and ast.unparse(e.func) == "datetime.datetime.now" and not e.args and not e.keywords:
             attrs.append("<now>")
         else:
             raise ExtractError("add: inserted value not recognised: " + ast.unparse(e))
@@ -114,11 +486,12 @@ def add_shape(tree):
         raise ExtractError("add: third statement is not a single-statement `with self.conn:`")
     ex = w.body[0]
     if not (isinstance(ex, ast.Expr) and isinstance(ex.value, ast.Call) and isinstance(ex.value.func, ast.Attribute)
-            and ex.value.func.attr == "executemany" and _is_self_conn(ex.value.func.value)
+            and ex.value.func.attr == "executemany" and _is_self_conn(ex.value.func.value) and not ex.value.keywords
             and len(ex.value.args) == 2 and isinstance(ex.value.args[1], ast.Name) and ex.value.args[1].id == vname):
         raise ExtractError("add: the transaction body is not one self.conn.executemany(<sql>, values)")
-    sql = _norm(" ".join(_strs(ex.value.args[0])))
-    m = re.fullmatch(r"INSERT INTO \{table\} VALUES \(((?:\?, )*\?)\)", sql)
+    # the statement, evaluated for a store on a table with a sentinel name (it must go to THAT table)
+    sql = _norm(_Interp(tree).expr(ex.value.args[0], {"self": types.SimpleNamespace(table=T_SENT)}))
+    m = re.fullmatch(r"INSERT INTO %s VALUES \(((?:\?, )*\?)\)" % T_SENT, sql)
     if not m:
         raise ExtractError("add: INSERT statement not recognised: " + sql)
     if m.group(1).count("?") != len(attrs):
@@ -144,44 +517,48 @@ def serialise_shape(enc_tree):
     return "SkipOnException"
 
 
-def query_shape(tree):
-    fn = _func(tree, "make_query")
-    sql = _norm(" ".join(_strs(fn)))
-    if not re.search(r"WHERE module ==? \?", sql):
-        raise ExtractError("make_query: module predicate is not `module == ?`")
-    # parameters: values = [module]; (qualname appended k times under `if qualname is not None`); values.append(limit)
-    args = [a.arg for a in fn.args.args]
-    if args != ["table", "module", "qualname", "limit"]:
+def evaluated_query(tree, qualname):
+    """(whitespace-normalised SQL with the table sentinel written back as {table}, parameter list) of
+    make_query(<table>, <module>, qualname, <limit>) for sentinel arguments"""
+    it = _Interp(tree)
+    fn = it.funcs.get("make_query")
+    if fn is None or [a.arg for a in fn.args.args] != ["table", "module", "qualname", "limit"]:
         raise ExtractError("make_query: unexpected parameter list")
-    init = None
-    n_qual, last_append, cond_ok = 0, None, False
-    for node in ast.walk(fn):
-        if isinstance(node, (ast.Assign, ast.AnnAssign)):
-            tgt = node.targets[0] if isinstance(node, ast.Assign) else node.target
-            if isinstance(tgt, ast.Name) and tgt.id == "values":
-                init = node.value
-    if not (isinstance(init, ast.List) and len(init.elts) == 1 and isinstance(init.elts[0], ast.Name)
-            and init.elts[0].id == "module"):
-        raise ExtractError("make_query: values is not initialised to [module]")
-    ifs = [s for s in fn.body if isinstance(s, ast.If)]
-    if len(ifs) != 1 or ast.unparse(ifs[0].test) != "qualname is not None" or ifs[0].orelse:
-        raise ExtractError("make_query: expected exactly one `if qualname is not None:`")
-    qual_sql = _norm(" ".join(_strs(ifs[0])))
-    for node in ast.walk(ifs[0]):
-        if isinstance(node, ast.Call) and isinstance(node.func, ast.Attribute) and isinstance(node.func.value, ast.Name) \
-                and node.func.value.id == "values":
-            if node.func.attr == "append" and len(node.args) == 1 and ast.unparse(node.args[0]) == "qualname":
-                n_qual += 1
-            elif node.func.attr == "extend" and len(node.args) == 1 and isinstance(node.args[0], (ast.List, ast.Tuple)) \
-                    and all(ast.unparse(e) == "qualname" for e in node.args[0].elts):
-                n_qual += len(node.args[0].elts)
-            else:
-                raise ExtractError("make_query: unrecognised parameter for the qualname clause")
-    for s in fn.body:
-        if isinstance(s, ast.Expr) and isinstance(s.value, ast.Call) and ast.unparse(s.value.func) == "values.append":
-            last_append = ast.unparse(s.value.args[0])
-    if last_append != "limit":
-        raise ExtractError("make_query: the last parameter is not the limit")
+    out = it.run(fn, [T_SENT, M_SENT, qualname, L_SENT])
+    if it.none_tests - {"qualname"}:
+        raise ExtractError("make_query: tests a parameter other than qualname against None")
+    if not (isinstance(out, tuple) and len(out) == 2 and isinstance(out[0], str) and isinstance(out[1], list)):
+        raise ExtractError("make_query: does not return (sql, values)")
+    sql, values = out
+    for s in (M_SENT, Q_SENT, str(L_SENT)):
+        if s in sql:
+            raise ExtractError("make_query: a value is pasted into the SQL text")
+    if sql.count(T_SENT) != 1:
+        raise ExtractError("make_query: the table name occurs other than once")
+    return _norm(sql).replace(T_SENT, "{table}"), values
+
+
+def query_shape(tree):
+    sql0, v0 = evaluated_query(tree, None)
+    sql, v1 = evaluated_query(tree, Q_SENT)
+    if not re.search(r"WHERE module ==? \?", sql) or not re.search(r"WHERE module ==? \?", sql0):
+        raise ExtractError("make_query: module predicate is not `module == ?`")
+    if v0 != [M_SENT, L_SENT]:
+        raise ExtractError("make_query: without a prefix the parameters are not [module, limit]")
+    if not (len(v1) >= 2 and v1[0] == M_SENT and v1[-1] == L_SENT and all(v == Q_SENT for v in v1[1:-1])):
+        raise ExtractError("make_query: parameters are not [module, qualname..., limit]")
+    n_qual = len(v1) - 2
+    # the qualname clause = what the prefix adds to the statement
+    a, b = sql0.split(" "), sql.split(" ")
+    i = 0
+    while i < len(a) and i < len(b) and a[i] == b[i]:
+        i += 1
+    j = 0
+    while j < len(a) - i and j < len(b) - i and a[len(a) - 1 - j] == b[len(b) - 1 - j]:
+        j += 1
+    if i + j != len(a):
+        raise ExtractError("make_query: the prefix changes the statement in more than one place")
+    qual_sql = " ".join(b[i:len(b) - j])
     if re.fullmatch(r"AND qualname LIKE \? \|\| '%'", qual_sql) and n_qual == 1:
         op = "LikePrefix"
     elif re.fullmatch(r"AND substr\(qualname, 1, length\(\?\)\) ==? \?", qual_sql) and n_qual == 2:
@@ -194,48 +571,67 @@ def query_shape(tree):
     m2 = re.search(r"SELECT ([a-z_, ]+?) FROM \{table\}", sql)
     if not m or not m2:
         raise ExtractError("make_query: SELECT / GROUP BY not found")
-    if not sql.endswith("LIMIT ?") or sql.count("?") != 2 + n_qual:
+    if not sql.endswith("LIMIT ?") or sql.count("?") != 2 + n_qual or sql0.count("?") != 2:
         raise ExtractError("make_query: LIMIT ? is not the last placeholder")
-    if re.search(r"\b(COLLATE|ESCAPE|HAVING|DISTINCT|JOIN|OR)\b", sql):
+    if re.search(r"\b(COLLATE|ESCAPE|HAVING|DISTINCT|JOIN|OR|UNION|EXCEPT|INTERSECT|OFFSET)\b", sql):
         raise ExtractError("make_query: clause the model does not know")
     return op, [c.strip() for c in m2.group(1).split(",")], [c.strip() for c in m.group(1).split(",")]
 
 
-def filter_shape(tree):
-    fn = _func(tree, "filter")
-    src = ast.unparse(fn)
-    if "make_query(self.table, module, qualname_prefix, limit)" not in src:
-        raise ExtractError("filter: make_query call not recognised")
-    if "[CallTraceRow(*row) for row in cur.fetchall()]" not in src:
-        raise ExtractError("filter: result construction not recognised")
+_FILTER_NF = """\
+_v0, _v1 = make_query(self.table, module, qualname_prefix, limit)
+with self.conn:
+    _v2 = self.conn.cursor()
+    _v2.execute(_v0, _v1)
+    _v3 = []
+    for _v4 in _v2.fetchall():
+        _v3.append(CallTraceRow(*_v4))
+    return _v3"""
+
+
+def filter_shape(nf):
+    fn = _method(nf, "SQLiteStore", "filter")
+    if [a.arg for a in fn.args.args] != ["self", "module", "qualname_prefix", "limit"]:
+        raise ExtractError("filter: unexpected parameter list")
+    text, _ = _canon_text(fn)
+    if text != _FILTER_NF:
+        raise ExtractError("filter: body not recognised (normal form):\n" + text)
     return "AllRowsPositional"
 
 
-def list_modules_shape(tree):
-    fn = None
-    for node in ast.walk(tree):
-        if isinstance(node, ast.ClassDef) and node.name == "SQLiteStore":
-            for s in node.body:
-                if isinstance(s, ast.FunctionDef) and s.name == "list_modules":
-                    fn = s
-    if fn is None:
-        raise ExtractError("SQLiteStore.list_modules not found")
-    sql = _norm(" ".join(_strs(fn)))
-    if not re.fullmatch(r"SELECT module FROM \{table\} GROUP BY module( ORDER BY date\(created_at\) DESC)?", sql):
+_LIST_MODULES_NF = """\
+with self.conn:
+    _v0 = self.conn.cursor()
+    _v0.execute(SQL)
+    _v1 = []
+    for _v2 in _v0.fetchall():
+%s
+    return _v1"""
+_LM_DROPS = "        if _v2[0]:\n            _v1.append(_v2[0])"
+_LM_KEEPS = "        _v1.append(_v2[0])"
+
+
+def list_modules_shape(tree, nf):
+    fn = _method(nf, "SQLiteStore", "list_modules")
+    text, sqls = _canon_text(fn, ("execute", 1), {"self": types.SimpleNamespace(table=T_SENT)}, _Interp(tree))
+    if len(sqls) != 1:
+        raise ExtractError("list_modules: expected exactly one execute(<sql>)")
+    sql = _norm(sqls[0])
+    if not re.fullmatch(r"SELECT module FROM %s GROUP BY module( ORDER BY date\(created_at\) DESC)?" % T_SENT, sql):
         raise ExtractError("list_modules: query not recognised: " + sql)
-    src = ast.unparse(fn)
-    if "[row[0] for row in cur.fetchall() if row[0]]" in src:
+    if text == _LIST_MODULES_NF % _LM_DROPS:
         return True
-    if "[row[0] for row in cur.fetchall()]" in src:
+    if text == _LIST_MODULES_NF % _LM_KEEPS:
         return False
-    raise ExtractError("list_modules: result construction not recognised")
+    raise ExtractError("list_modules: body not recognised (normal form):\n" + text)
 
 
 def render():
     sq = _parse("monkeytype/db/sqlite.py")
     enc = _parse("monkeytype/encoding.py")
+    nf = normal_form(sq)
     cols = table_columns(sq)
-    shape, attrs = add_shape(sq)
+    shape, attrs = add_shape(sq, nf)
     if len(attrs) != len(cols):
         raise ExtractError("INSERT arity differs from the table's column count")
     op, select, group = query_shape(sq)
@@ -253,8 +649,8 @@ def render():
     w(f"Definition store_qualname_operator : string := {_cs(op)}.")
     w("Definition store_select_columns : list string := [" + "; ".join(_cs(c) for c in select) + "].")
     w("Definition store_group_columns : list string := [" + "; ".join(_cs(c) for c in group) + "].")
-    w(f"Definition store_filter_shape : string := {_cs(filter_shape(sq))}.")
-    w(f"Definition store_list_modules_drops_falsy : bool := {'true' if list_modules_shape(sq) else 'false'}.")
+    w(f"Definition store_filter_shape : string := {_cs(filter_shape(nf))}.")
+    w(f"Definition store_list_modules_drops_falsy : bool := {'true' if list_modules_shape(sq, nf) else 'false'}.")
     return "\n".join(L) + "\n"
 
 
@@ -263,7 +659,7 @@ def regenerate():
     path = os.path.join(common.COQ, "Gen", "StoreConstants.v")
     try:
         text = render()
-    except (ExtractError, SyntaxError, OSError, AttributeError, KeyError, IndexError) as e:
+    except (ExtractError, SyntaxError, OSError, AttributeError, KeyError, IndexError, RecursionError) as e:
         # keep the previously generated file: the proof status is reported as broken by the caller, but the
         # correspondence harness can still be built (against the last understood model) to search for a failing input
         return False, f"{type(e).__name__}: {e}"
